@@ -74,15 +74,23 @@ def _remove_unused_optional_outputs(
     node.resize_outputs(new_output_count)
 
 
-def _remove_trailing_empty_inputs(node: ir.Node) -> None:
-    # Remove trailing None inputs
+def _remove_trailing_empty_inputs(node: ir.Node) -> bool:
+    """Remove trailing None inputs. Return True if the node was changed."""
     new_input_count = len(node.inputs)
     for i in reversed(range(len(node.inputs))):
         if node.inputs[i] is None:
             new_input_count -= 1
         else:
             break
+    if new_input_count == len(node.inputs):
+        return False
     node.resize_inputs(new_input_count)
+    return True
+
+
+def _output_signature(node: ir.Node) -> tuple:
+    """The parts of a node that _remove_unused_optional_outputs may change."""
+    return tuple(output.name for output in node.outputs), "training_mode" in node.attributes
 
 
 def _remove_unused_nodes_in_graph_like(function_or_graph: ir.Function | ir.Graph) -> int:
@@ -99,9 +107,14 @@ def _remove_unused_nodes_in_graph_like(function_or_graph: ir.Function | ir.Graph
             function_or_graph.remove(node, safe=True)
             count += 1
         else:
-            _remove_trailing_empty_inputs(node)
+            # Trimming inputs and optional outputs changes the model as well: count it
+            if _remove_trailing_empty_inputs(node):
+                count += 1
             if onnx_opset_version is not None:
+                outputs_before = _output_signature(node)
                 _remove_unused_optional_outputs(node, graph_outputs, onnx_opset_version)
+                if _output_signature(node) != outputs_before:
+                    count += 1
             for attr in node.attributes.values():
                 if attr.type == ir.AttributeType.GRAPH:
                     count += _remove_unused_nodes_in_graph_like(attr.as_graph())
